@@ -80,10 +80,14 @@ package util
 
 //@ func (ImportNames).LookupName(i, pkgPath) (name, ok)
 //@   ensures {C10,C13} ok == has(i, pkgPath) && name == cond(ok, i[pkgPath], "")
+// The answer is a function of the table, not of the iteration order (C13, finding F16): the smallest path that
+// carries the name; ok exactly when some path carries it.
 //@ func (ImportNames).LookupPath(i, pkgName) (path, ok)
 //@   ensures {C13,C06} ok ==> has(i, path) && i[path] == pkgName
 //@   ensures !ok ==> path == ""
+//@   ensures {C13} forallkey(k, i, i[k] == pkgName ==> ok && path <= k)
 //@   loop 1 invariant (ok ==> has(i, path) && i[path] == pkgName) && (!ok ==> path == "")
+//@   loop 1 invariant forallkey(k, i, visited(k) && i[k] == pkgName ==> ok && path <= k)
 
 // ---- doc comments and comment surgery (C17, C11, C09) ---------------------------------------------------------------
 
